@@ -51,6 +51,22 @@ func (x *Explorer) call(fr *Frame, b *ssa.BasicBlock, idx int, ins *ssa.Call, st
 	var binds []Val
 	if cc.IsInvoke() {
 		recv := x.eval(fr, st, cc.Value)
+		// a table reached through a hand-written interface: the dynamic value says which table
+		if tv, ok := recv.(*TableV); ok && ormOpKind(cc.Method.Name()) != "" {
+			oc := &ORMCall{Table: tv.T, Method: cc.Method.Name(), Kind: ormOpKind(cc.Method.Name()), Call: ins}
+			fr.env[ins] = x.ormCall(fr, st, oc, ins, args)
+			return false
+		}
+		// generated getters reached through a hand-written interface (GetOpen(), GetIssuer()): field loads
+		if p, ok := recv.(*Ptr); ok && len(args) == 0 && strings.HasPrefix(cc.Method.Name(), "Get") {
+			if o := st.mem[p.O]; o != nil && o.Table != nil {
+				fname := strings.TrimPrefix(cc.Method.Name(), "Get")
+				if structHasField(o.T, fname) {
+					fr.env[ins] = x.load(st, &Ptr{O: p.O, Path: p.Path + "." + fname}, ins.Type())
+					return false
+				}
+			}
+		}
 		if v, ok := x.invokeIntrinsic(fr, st, ins, recv, args); ok {
 			fr.env[ins] = v
 			return false
@@ -95,6 +111,18 @@ func (x *Explorer) call(fr *Frame, b *ssa.BasicBlock, idx int, ins *ssa.Call, st
 		}
 		fr.env[ins] = x.opaqueResult(st, ins, "dyncall", args)
 		return false
+	}
+	// a method value of a table (k.stateStore.XTable().Insert stored in a variable / struct field and
+	// called later): the bound receiver says which table
+	if strings.HasSuffix(callee.Name(), "$bound") && len(binds) == 1 {
+		if tv, ok := binds[0].(*TableV); ok {
+			name := strings.TrimSuffix(callee.Name(), "$bound")
+			if ormOpKind(name) != "" {
+				oc := &ORMCall{Table: tv.T, Method: name, Kind: ormOpKind(name), Call: ins}
+				fr.env[ins] = x.ormCall(fr, st, oc, ins, args)
+				return false
+			}
+		}
 	}
 	if v, ok := x.intrinsic(fr, st, ins, callee, args); ok {
 		fr.env[ins] = v
@@ -161,6 +189,21 @@ func (x *Explorer) shouldInline(fn *ssa.Function, binds []Val) bool {
 	if x.statePkgs[pp] {
 		return true
 	}
+	// plain helper functions of the module's other hand-written packages (a date helper moved into
+	// x/ecocredit/basket, a pricing package): seen through, except the named API the format / validator
+	// rules reason about as terms (Format…, Validate…, Parse…, Get…From…, ExponentToPrefix, Is…)
+	if fn.Signature.Recv() == nil && fn.Parent() == nil && !strings.Contains(pp, "/types/v") && !strings.Contains(pp, "/types/v2") {
+		n := fn.Name()
+		opaque := false
+		for _, pre := range []string{"Format", "Validate", "validate", "Parse", "Get", "ExponentTo", "Is", "New", "Register", "Must"} {
+			if strings.HasPrefix(n, pre) {
+				opaque = true
+			}
+		}
+		if !opaque {
+			return true
+		}
+	}
 	// hand-written accessors on a request message type (GetTxMsg(), …): small, pure, and what they
 	// return must be seen through; validators stay uninterpreted outside validator mode
 	if fn.Signature.Recv() != nil && fn.Name() != "Validate" && fn.Name() != "ValidateBasic" && fn.Name() != "GetSigners" {
@@ -180,6 +223,22 @@ func (x *Explorer) shouldInline(fn *ssa.Function, binds []Val) bool {
 	}
 	for i := 0; i < sig.Results().Len(); i++ {
 		if isDecType(sig.Results().At(i).Type()) {
+			return true
+		}
+	}
+	return false
+}
+
+func structHasField(t types.Type, name string) bool {
+	if p, ok := t.(*types.Pointer); ok {
+		t = p.Elem()
+	}
+	st, ok := t.Underlying().(*types.Struct)
+	if !ok {
+		return false
+	}
+	for i := 0; i < st.NumFields(); i++ {
+		if st.Field(i).Name() == name {
 			return true
 		}
 	}
@@ -276,6 +335,19 @@ func (x *Explorer) builtin(fr *Frame, st *State, ins *ssa.Call, args []Val) Val 
 		}
 		if isK(args[0], "nil") {
 			return &KConst{S: "0"}
+		}
+		// a slice of a local array literal / a known sequence has a known length
+		if p, ok := args[0].(*Ptr); ok && p.Path == "" {
+			if o := st.mem[p.O]; o != nil && o.Kind == "array" {
+				if at, isArr := o.T.Underlying().(*types.Array); isArr {
+					return &KConst{S: fmt.Sprint(at.Len())}
+				}
+				if o.Origin == "seq" || o.Origin == "make:0" {
+					if els, ok := x.sliceElems(st, p); ok {
+						return &KConst{S: fmt.Sprint(len(els))}
+					}
+				}
+			}
 		}
 		return &Sym{N: "len(" + st.canon(args[0]) + ")", T: ins.Type()}
 	case "append":
